@@ -1,12 +1,18 @@
 #!/usr/bin/env python3
 """Applies every benign (property-preserving) change under /verif/seeded/benign/ to /repo in turn and runs ALL quick checks:
 every check must stay silent (exit 0). Writes seeded/benign/RESULTS.json + RESULTS.md. Usage: tools/benign.py [name-prefix ...]"""
-import json, os, subprocess, sys, time
+import json, os, shutil, subprocess, sys, time
 VERIF='/verif'
 BASE=os.path.join(VERIF,'seeded','benign')
 prefixes=sys.argv[1:]
 out_json=os.path.join(BASE,'RESULTS.json')
 results=json.load(open(out_json)) if os.path.exists(out_json) else {}
+# the checks rewrite /verif/evidence on every run: keep the files written on the unchanged tree and put them back afterwards
+EV=os.path.join(VERIF,'evidence'); EVB=os.path.join(VERIF,'target','evidence-backup')
+shutil.rmtree(EVB, ignore_errors=True); shutil.copytree(EV, EVB)
+def restore_evidence():
+    for f in os.listdir(EVB):
+        shutil.copy(os.path.join(EVB,f), os.path.join(EV,f))
 def sh(cmd):
     return subprocess.run(cmd, shell=True, stdout=subprocess.PIPE, stderr=subprocess.STDOUT, text=True)
 assert sh('git -C /repo status --porcelain -- src').stdout.strip()=='' , '/repo dirty'
@@ -54,7 +60,7 @@ for name in sorted(os.listdir(BASE)):
             if not ok: print(name,p,'exit',r.returncode,results[name][p]['first'][:200],flush=True)
         print(name,'done',flush=True)
     finally:
-        sh('git -C /repo checkout -- .')
+        sh('git -C /repo checkout -- .'); restore_evidence()
     json.dump(results,open(out_json,'w'),indent=1,sort_keys=True)
 with open(os.path.join(BASE,'RESULTS.md'),'w') as f:
     f.write('# Benign (property-preserving) changes vs. all quick checks (written by tools/benign.py)\n\nEvery cell must be "ok" (exit 0, no VIOLATION).\n\n| change | existing tests | '+' | '.join(PROPS)+' |\n|---|---|'+'---|'*len(PROPS)+'\n')
